@@ -58,6 +58,31 @@ def alphabet(items: Set[Tuple[int, int]]) -> Set[str]:
     return {chr(c) for lo, hi in items for c in range(lo, hi + 1)}
 
 
+def name_roles(f, extra=None) -> Dict[str, str]:
+    """Locals of the name-mangling helpers by role: the result (what is returned, possibly inside cast(str, …)), the
+    candidate (bound from _get_pddl_name(…)), the original name (bound from ….name), the probe of a `while probe in
+    <table>.values()` loop."""
+    roles: Dict[str, str] = {}
+    fn = f.node
+    for r in walk_no_nested(fn):
+        if isinstance(r, ast.Return) and r.value is not None:
+            v = r.value
+            if isinstance(v, ast.Call) and call_name(v) == "cast" and len(v.args) == 2:
+                v = v.args[1]
+            if isinstance(v, ast.Name) and v.id not in f.params():
+                roles.setdefault(v.id, (extra or {}).get("result", "name"))
+    for a in walk_no_nested(fn):
+        if isinstance(a, ast.Assign) and isinstance(a.targets[0], ast.Name) and a.targets[0].id not in roles:
+            if isinstance(a.value, ast.Call) and call_name(a.value) == "_get_pddl_name":
+                roles[a.targets[0].id] = "tmp_name"
+            elif isinstance(a.value, ast.Attribute) and a.value.attr == "name":
+                roles[a.targets[0].id] = "original_name"
+    for w in walk_no_nested(fn):
+        if isinstance(w, ast.While) and isinstance(w.test, ast.Compare) and isinstance(w.test.left, ast.Name) and isinstance(w.test.ops[0], ast.In) and norm(w.test.comparators[0]).endswith(".values()"):
+            roles.setdefault(w.test.left.id, "test_name")
+    return roles
+
+
 def run(idx: Index, rep: Report, tier: str) -> None:
     rep.explanation = __doc__.strip()
     mod = idx.module(PW)
@@ -97,8 +122,11 @@ def run(idx: Index, rep: Report, tier: str) -> None:
 
     # ---------------------------------------------------------------- (2) the two maps
     rule2 = "C38.2 T2 renaming-maps-are-inverse"
+    from ..roles import with_roles
+
     gm = idx.func(PW + ".PDDLWriter._get_mangled_name")
     rep.note_function(gm.qualname)
+    gm = with_roles(gm, name_roles(gm, {"result": "new_name"}))
     writers: Dict[str, List[Tuple[str, str]]] = {"otn_renamings": [], "nto_renamings": []}
     for f in idx.all_funcs():
         if f.module is not mod:
@@ -152,6 +180,7 @@ def run(idx: Index, rep: Report, tier: str) -> None:
     rule3 = "C38.3 mangling-pipeline"
     gp = idx.func(PW + "._get_pddl_name")
     rep.note_function(gp.qualname)
+    gp = with_roles(gp, name_roles(gp))
     subs = [c for c in walk_no_nested(gp.node) if isinstance(c, ast.Call) and norm(c.func) == "re.sub"]
     if not subs:
         raise AnalysisError("anchor vanished: re.sub in _get_pddl_name")
@@ -195,6 +224,7 @@ def run(idx: Index, rep: Report, tier: str) -> None:
     am = idx.module(AW)
     av = idx.func(AW + "._get_anml_valid_name")
     rep.note_function(av.qualname)
+    av = with_roles(av, name_roles(av))
     subs = [c for c in walk_no_nested(av.node) if isinstance(c, ast.Call) and norm(c.func) == "re.sub"]
     pat = subs[0].args[0].value if subs and isinstance(subs[0].args[0], ast.Constant) else None
     rc = regex_negated_class(pat) if pat else None
@@ -214,6 +244,7 @@ def run(idx: Index, rep: Report, tier: str) -> None:
     rep.check(order == ["sub", "kw"], rule3, "ANML: the keyword test runs on the final spelling", av.loc(), construct=" -> ".join(order), function=av.qualname)
     an = idx.func(AW + "._get_anml_name")
     rep.note_function(an.qualname)
+    an = with_roles(an, name_roles(an, {"result": "new_name"}))
     wl = [w for w in walk_no_nested(an.node) if isinstance(w, ast.While)]
     ok = bool(wl) and norm(wl[0].test) == "test_name in names_mapping.values()"
     rep.check(ok, rule3, "ANML: a fresh name is one that no other element received", an.loc(wl[0]) if wl else an.loc(), construct=norm(wl[0].test) if wl else "", detail="" if ok else "two elements can be written under the same ANML name", function=an.qualname)
